@@ -15,7 +15,8 @@ from vlib.runner import Result, SubCheck, Violation
 
 PROPERTY = "C19"
 LEVEL = "exploration"
-RULE = ("A generated history (possibly empty: copy before fit) over any policy pair with module-level binarizers; "
+RULE = ("One plan in sixteen uses hyper-parameters at the falsy boundary of their range (l2_lambda=0, alpha=0, epsilon=0) with an arm added after the copy was taken. "
+        "A generated history (possibly empty: copy before fit) over any policy pair with module-level binarizers; "
         "at its end the bandit is deep-copied and pickled/unpickled with protocols 2..5; a generated continuation "
         "(training, arm changes, warm start, queries) runs on every copy first and on the original afterwards: all "
         "outputs must be identical, and the original must also equal a bandit rebuilt from scratch by re-running "
